@@ -568,9 +568,13 @@ IsDurVal(d) == InInt64(d) /\ ~(d.neg /\ MagZero(d))
 
 \* duration strings, family T: every presence pattern of the template
 \*   sign P nY nM nD T nH nM n[.f]S   (T and the components independently present or absent)
-NumStyle == {"small", "lead0", "carry"}
+\* lead0carry / lead08: leading zeros in front of several significant digits / of a digit that is no octal digit
+\* (xsd:duration numbers are decimal whatever they start with)
+NumStyle == {"small", "lead0", "carry", "lead0carry", "lead08"}
 N(style, small, carry) == CASE style = "small" -> <<Tok(small)>>
                             [] style = "lead0" -> <<"0", "0", Tok(small)>>
+                            [] style = "lead0carry" -> <<"0">> \o carry
+                            [] style = "lead08" -> <<"0", "8">>
                             [] OTHER -> carry
 FracStyles == { <<>>, <<".", "5">>, <<".", "0", "0", "0", "0", "0", "0", "0", "0", "1">>,
                 <<".", "9", "9", "9", "9", "9", "9", "9", "9", "9">>, <<".", "5", "0">>,
